@@ -6,7 +6,8 @@ proofs : lean/PyAbel/Props/C14.lean (normal equations for any pixel set and weig
 K      : Distributions(...).image(IM).cos() vs the executable Lean model (geometry, folding, bins, weights, sin
          weighting, nearest/linear, up to 3 angular terms) on random images at well-conditioned radii
 S      : synthetic images Σ c_n(r) cos^n θ → returned c_n (all shapes / origins incl. edges and strings / rmax keywords /
-         orders 0-8 / odd / methods / use_sin / positive weights); anisotropy_parameter on noiseless curves
+         orders 0-8 / odd / methods / use_sin / positive weights, also zones weighted 1e250 apart); every documented origin name = the
+         tuple it names; anisotropy_parameter on noiseless curves
 """
 import json
 
